@@ -308,7 +308,7 @@ where
         });
     }
 
-    let original = original.into_iter();
+    let mut original = original.into_iter();
     let mut recovery = recovery.into_iter();
 
     let (shard_bytes, first_recovery) = if let Some(first_recovery) = recovery.next() {
@@ -316,17 +316,27 @@ where
     } else {
         // NO RECOVERY SHARDS
 
-        let original_received_count = original.count();
-        if original_received_count == original_count {
-            // Nothing to do, original data is complete.
-            return Ok(HashMap::new());
+        // Shard size is inferred from the first original shard instead,
+        // and the original shards are checked by `ReedSolomonDecoder` as usual.
+        let Some(first_original) = original.next() else {
+            return Err(Error::NotEnoughShards {
+                original_count,
+                original_received_count: 0,
+                recovery_received_count: 0,
+            });
+        };
+
+        let shard_bytes = first_original.1.as_ref().len();
+        let mut decoder = ReedSolomonDecoder::new(original_count, recovery_count, shard_bytes)?;
+
+        decoder.add_original_shard(first_original.0, first_original.1)?;
+        for (index, original) in original {
+            decoder.add_original_shard(index, original)?;
         }
 
-        return Err(Error::NotEnoughShards {
-            original_count,
-            original_received_count,
-            recovery_received_count: 0,
-        });
+        // Either `NotEnoughShards`, or nothing to do as original data is complete.
+        decoder.decode()?;
+        return Ok(HashMap::new());
     };
 
     let mut decoder = ReedSolomonDecoder::new(original_count, recovery_count, shard_bytes)?;
